@@ -31,7 +31,7 @@ def _eval(e, env):
     if isinstance(e, ast.BinOp) and isinstance(e.op, (ast.Add, ast.Sub)):
         a, b = _eval(e.left, env), _eval(e.right, env)
         return a + b if isinstance(e.op, ast.Add) else a - b
-    if isinstance(e, ast.List):
+    if isinstance(e, (ast.List, ast.Tuple)):
         return [_eval(x, env) for x in e.elts]
     if isinstance(e, ast.Subscript):
         return _eval(e.value, env)[_eval(e.slice, env)]
